@@ -58,6 +58,7 @@ func (c *Cache) getClientEntries(cname types.PrincipalName) (clientEntries, bool
 }
 
 func (c *Cache) getClientEntry(cname types.PrincipalName, sname types.PrincipalName, t time.Time) (replayCacheEntry, bool) {
+	t = t.UTC()
 	c.mux.RLock()
 	defer c.mux.RUnlock()
 	if ce, ok := c.entries[nameKey(cname)]; ok {
@@ -66,6 +67,13 @@ func (c *Cache) getClientEntry(cname types.PrincipalName, sname types.PrincipalN
 		}
 	}
 	return replayCacheEntry{}, false
+}
+
+// authenticatorTime combines the authenticator's CTime and Cusec.
+// The result is in UTC: it is used in a map key, and == on time.Time also compares the Location, which differs
+// between two decodings of the same GeneralizedTime when it carries a zone offset.
+func authenticatorTime(a types.Authenticator) time.Time {
+	return a.CTime.Add(time.Duration(a.Cusec) * time.Microsecond).UTC()
 }
 
 // Instance of the ServiceCache. This needs to be a singleton.
@@ -99,7 +107,7 @@ func (c *Cache) AddEntry(sname types.PrincipalName, a types.Authenticator) {
 
 // addEntry adds an entry to the Cache. The caller must hold the write lock.
 func (c *Cache) addEntry(sname types.PrincipalName, a types.Authenticator) {
-	ct := a.CTime.Add(time.Duration(a.Cusec) * time.Microsecond)
+	ct := authenticatorTime(a)
 	k := replayKey{ct, nameKey(sname)}
 	e := replayCacheEntry{
 		presentedTime: time.Now().UTC(),
@@ -140,7 +148,7 @@ func (c *Cache) ClearOldEntries(d time.Duration) {
 
 // IsReplay tests if the Authenticator provided is a replay within the duration defined. If this is not a replay add the entry to the cache for tracking.
 func (c *Cache) IsReplay(sname types.PrincipalName, a types.Authenticator) bool {
-	ct := a.CTime.Add(time.Duration(a.Cusec) * time.Microsecond)
+	ct := authenticatorTime(a)
 	c.mux.Lock()
 	defer c.mux.Unlock()
 	if ce, ok := c.entries[nameKey(a.CName)]; ok {
